@@ -431,9 +431,10 @@ class Ctx:
             'traces_validated_against_impl': self.evaluations - len(self.mismatches),
             'obligations': self.proof['obligations'],
             'discharged': self.proof['discharged'],
-            'checker_cmd': 'cd lean/QecVerif && lake build QecVerif.Props.' + self.pid + ' qvdriver && lake env lean <#print axioms for every '
-                           'theorem of QecVerif/Props/{}.lean>'.format(self.pid) +
-                           (' && lake env leanchecker QecVerif.Props.' + self.pid if 'leanchecker_rc' in self.extra
+            'checker_cmd': 'cd lean/QecVerif && lake build ' + ' '.join(prop_modules(self.pid)) + ' qvdriver && lake env lean '
+                           '<file importing those modules with #print axioms for every theorem of Props/{0}.lean and '
+                           'Props/{0}/*.lean>'.format(self.pid) +
+                           (' && lake env leanchecker ' + ' '.join(prop_modules(self.pid)) if 'leanchecker_rc' in self.extra
                             else ''),
             'trusted_base': TRUSTED_BASE,
             'theorems': self.proof['theorems'],
